@@ -165,3 +165,48 @@ CHECKS["C26"] = dict(
         dict(pkg=BST, run="^TestC26_BlockStore$", quick=300, thorough=30000, floor=30),
     ],
 )
+
+CORE = "verifharness/checks/core"
+E1_NOTE = "Executes through the real Chain.UpdateState over the real MPT, state cache and contracts, booted from the shipped configuration (owner ids replaced by harness keys, multisig/vesting enabled, contract timeout raised to 10 min so load cannot turn a slow call into a rejected transaction). Transaction signatures are not part of this path; timestamps are synthetic."
+CHECKS["C01"] = dict(
+    level="exploration", engine="E1",
+    technique="stateful property-based testing on the full-chain simulator: invariant (ledger sum == supply) checked after every generated transaction, full trie scan at the end",
+    level_text="Generated transaction histories (all outcome classes: applied, chargeable failure, rejected) run on a real in-process chain; after every transaction the balances of all known accounts are read through an uncached trie and must sum to MaxTokenSupply; a full scan of the state trie confirms it at the end of each history and whenever the known sum deviates.",
+    level_note=E1_NOTE,
+    parts=[dict(pkg=CORE, run="^TestC01_SupplyConserved$", quick=400, thorough=40000, floor=20)],
+)
+CHECKS["C03"] = dict(
+    level="exploration", engine="E1",
+    technique="model-based property-based testing (nonce model from observed outcomes) on the full-chain simulator with generated replays and out-of-order nonces",
+    level_text="Histories with replayed, skipped and past nonces from interleaved senders across blocks; applied implies nonce == state+1 and +1 afterwards, rejected implies nothing changed, no (sender, nonce) twice, an in-order funded send is always applied.",
+    level_note=E1_NOTE,
+    parts=[dict(pkg=CORE, run="^TestC03_NonceOrder$", quick=400, thorough=40000, floor=20)],
+)
+CHECKS["C04"] = dict(
+    level="exploration", engine="E1",
+    technique="stateful property-based testing on the full-chain simulator: per-transaction balance-delta oracle over all known accounts",
+    level_text="For every applied generated transaction every account whose balance decreased must be the sender (by at most value + fee) or the called contract's wallet (or carry a valid signed transfer / assigner marker in the contract-specific parts).",
+    level_note=E1_NOTE,
+    parts=[dict(pkg=CORE, run="^TestC04_DebitsOnlyAuthorised$", quick=400, thorough=40000, floor=20)],
+)
+CHECKS["C05"] = dict(
+    level="exploration", engine="E1",
+    technique="stateful property-based testing on the full-chain simulator with boundary-biased amounts; exact debit/credit oracle",
+    level_text="Amounts at 0, 1, balance-fee, balance-fee+1, balance, supply, supply+1, 2^63 and 2^64-1; every balance stays <= supply, the sum never moves, over-spending sends are rejected as a whole, applied sends move exactly value and value+fee.",
+    level_note=E1_NOTE + " The destination-overflow clause is unreachable through transactions (supply 4e18 < 2^64).",
+    parts=[dict(pkg=CORE, run="^TestC05_NoOverdrawNoWrap$", quick=400, thorough=40000, floor=20)],
+)
+CHECKS["C02"] = dict(
+    level="exploration", engine="E1",
+    technique="differential property-based testing on the full-chain simulator: a failed call vs a fee-only twin transaction on a fork of the pre-state (state roots must be equal), plus event-list oracle",
+    level_text="Every generated contract call that ends as a chargeable failure is compared with a plain data transaction carrying the same sender, fee, nonce, hash and time applied to a fork of the same pre-state: equal state roots prove that nothing but the fee payment and the nonce increment survived; the returned events must be exactly one error event plus the balance events of sender and miner contract.",
+    level_note=E1_NOTE + " Non-trivial cases are failing calls for which an instrumented dry run shows state writes or queued transfers before the error.",
+    parts=[dict(pkg=CORE, run="^TestC02_FailedCallOnlyPaysFee$", quick=300, thorough=30000, floor=2)],
+)
+CHECKS["C06"] = dict(
+    level="exploration", engine="E1",
+    technique="metamorphic property-based testing on the full-chain simulator: the same generated block executed repeatedly from the same state under cold/warm caches and GOMAXPROCS 1/all must give identical results",
+    level_text="Generated blocks (incl. failing calls and governance calls with several invalid fields) are built once and re-executed 6 (quick) / 16 (thorough) times through Chain.UpdateState with fresh objects, alternating an isolated cold cache with the chain's shared warm cache and GOMAXPROCS settings; root, change count, statuses, outputs and the ordered event list must be identical every time.",
+    level_note=E1_NOTE + " Map-iteration and scheduling nondeterminism is sampled by repetition, not enumerated.",
+    parts=[dict(pkg=CORE, run="^TestC06_DeterministicExecution$", quick=150, thorough=15000, floor=10)],
+)
